@@ -109,3 +109,12 @@ Fixpoint do_shape (st : list frame) (s : shape) : list ctl :=
       | _ => [CErr]
       end
   end.
+
+(* numeric rendering of the skeleton for the correspondence test (tools/props/c23.py CTL) *)
+Definition ctl_code (c : ctl) : Z :=
+  match c with
+  | CCode b => Z.of_nat b
+  | CIf => (-1)%Z | CElse => (-2)%Z | CEnd => (-3)%Z | CBlock => (-4)%Z | CLoopI => (-5)%Z
+  | CBr d => (-100 - Z.of_nat d)%Z
+  | CErr => (-99)%Z
+  end.
